@@ -126,5 +126,5 @@ def check(ctx):
     from .common import share
     share(ctx, 'C04', 'R4/C04.', ['R2.usage', 'R8.'])
     # the usage predictor must agree with what generate_canonical consumes (shared with C10)
-    share(ctx, 'C10', 'R6/C10.', ['R3.'])
+    share(ctx, 'C10', 'R6/C10.', ['R3.', 'R1.'])
 
